@@ -3,16 +3,18 @@ Whole-trace correspondence of the world model (Ssm.v + SsmWorld.v) with StateMac
 medium, and the direct predicate of the property on the implementation trace."""
 import ssm_common as S
 import iocb_common as I
+import devcache_common as D
 from core import Case
 
 PROP = 'C04'
-COQ_TARGETS = ['theories/SsmFacts.vo', 'theories/SsmC04.vo', 'theories/SsmC04t.vo', 'theories/SsmC04s.vo', 'theories/SsmC04w.vo', 'theories/SsmC04h.vo', 'theories/SsmC05.vo', 'theories/IocbFacts.vo']
-COQ_IMPORTS = 'From Bac Require Import Base Iocb Ssm SsmWorld.'
+COQ_TARGETS = ['theories/SsmFacts.vo', 'theories/SsmC04.vo', 'theories/SsmC04t.vo', 'theories/SsmC04s.vo', 'theories/SsmC04w.vo', 'theories/SsmC04h.vo', 'theories/SsmC05.vo', 'theories/IocbFacts.vo', 'theories/DevCacheFacts.vo']
+COQ_IMPORTS = 'From Bac Require Import Base Iocb Ssm SsmWorld.\nFrom Bac Require DevCache.'
 RULE = ('cases: one confirmed request between two nodes (max-APDU 50..206, all 16 segmentation pairs, windows 1..8, retries 0..3, '
         'timeouts 250..3000 ms, payloads around every segment boundary, every kind of answer incl. silence and a slow application) under '
         'no fault, one or two faults (drop, duplicate, delay 125/500/2000 ms, late duplicate) at seeded frame indices or total silence '
-        'from a frame on; plus every single fault at every frame of two fixed transfers; plus IOCB histories on a real ApplicationIOController (1..8 IOCBs over 1..3 addresses, several '
-        'queued to one address, requests refused below, acks / errors from below, client aborts, batches of deferred functions) against Iocb.run_ops.  Compared: every frame (header, length, payload '
+        'from a frame on; plus every single fault at every frame of two fixed transfers; plus two or three stations that hold each other\'s device information records (from the start or from an I-Am arriving '
+        'mid-history) with overlapping client transactions to one known peer and client + server transactions with the same peer at once, ending by answer / error / abort / time-out in every order; plus IOCB histories on a real ApplicationIOController (1..8 IOCBs over 1..3 addresses, several '
+        'queued to one address, requests refused below, acks / errors from below, client aborts, batches of deferred functions) against Iocb.run_ops; plus DeviceInfoCache histories (I-Ams of 4 devices over 4 addresses incl. re-announcements, moves and instance changes, real ClientSSM / ServerSSM created towards known and unknown peers, finished in any order, records upgraded while shared) against DevCache.dc_run.  Compared: every frame (header, length, payload '
         'checksum, APDU length), every application event, every timer expiry (instant, owner, state), exception classes, residue.  '
         'non-trivial = at least one frame on the wire; distinct by scenario.')
 TRUSTED = S.TRUSTED
@@ -40,6 +42,9 @@ def cases(rng, tier):
         out.append(S.scenario_case(S.gen_request_tail(rng), 'request-tail'))
     for _ in range(300 if tier == 'thorough' else 40):
         out.append(S.scenario_case(S.gen_concurrent(rng), 'concurrent'))
+    # stations that hold each other's device information records and use them in overlapping transactions (both roles)
+    for _ in range(400 if tier == 'thorough' else 40):
+        out.append(S.scenario_case(S.gen_known_overlap(rng), 'known-peers-overlap'))
     # two faults over every pair of frames of a short segmented transfer (seeded slice in quick)
     nodes = S.two_nodes(know=False, retries=1, apduTimeout=1000, segTimeout=500)
     req = {'t': 0, 'src': 1, 'dst': 2, 'len': 70, 'service': 12, 'resp': ['complex', 70], 'resp_delay': 0}
@@ -56,6 +61,12 @@ def cases(rng, tier):
         exp, det = I.run_history(ops, n)
         out.append(Case('iocb-history', 'Iocb.run_ops %d %s' % (n, I.coq_ops(ops).replace('OSubmit', 'Iocb.OSubmit').replace('OConfirm', 'Iocb.OConfirm').replace('OAbort', 'Iocb.OAbort').replace('ORun', 'Iocb.ORun')),
                         exp, key=('iocb', repr(ops)), nontrivial=any(o[0] == 'submit' for o in ops), desc={'ops': ops, 'n': n}))
+    # DeviceInfoCache histories on the real cache and the real ClientSSM / ServerSSM constructors and set_state
+    for _ in range(2000 if tier == 'thorough' else 250):
+        ops = D.gen_history(rng)
+        exp, det = D.run_history(ops)
+        out.append(Case('devcache-history', D.coq_ops(ops), exp, key=('devcache', repr(ops)),
+                        nontrivial=any(o[0] == 'open' for o in ops) and any(o[0] == 'iam' for o in ops), desc={'dc_ops': ops}))
     return out
 
 
@@ -66,7 +77,8 @@ def direct(rng, tier, focus=()):
             ('capability', lambda r: S.gen_capability(r), 8000 if big else 300),
             ('request-tail', lambda r: S.gen_request_tail(r), 6000 if big else 600),
             ('bidirectional', lambda r: S.gen_bidirectional(r), 2000 if big else 200),
-            ('parked-answers', lambda r: S.gen_park_flush(r), 1000 if big else 100)]
+            ('parked-answers', lambda r: S.gen_park_flush(r), 1000 if big else 100),
+            ('known-peers-overlap', lambda r: S.gen_known_overlap(r), 6000 if big else 400)]
     failures, stats = S.direct_families(rng, fams, S.check_c04, focus)
     for spec in fixed_grid(rng):
         tr, fs = S.run_checked(spec, S.check_c04)
@@ -92,6 +104,16 @@ def direct(rng, tier, focus=()):
         fs, det = I.check_drained(ops, n)
         nh += 1
         failures.extend(fs)
+    nd = 0
+    for _ in range(30000 if big else 2500):
+        fs, det = D.check_history(D.gen_history(rng))
+        nd += 1
+        failures.extend(fs)
+    for d in focus or ():
+        if isinstance(d, dict) and d.get('dc_ops'):
+            failures.extend(D.check_history(d['dc_ops'])[0])
+    stats['evaluations'] += nd
+    stats['devcache_histories'] = nd
     import core as _core, json as _json
     for e in _core.load_findings('C04'):
         ops = ((e.get('replay') or {}).get('failure') or {}).get('ops')
@@ -127,6 +149,19 @@ def classify(f):
 
 def replay(payload):
     f = payload.get('failure') or {}
+    dc = f.get('dc_ops')
+    if dc is None and isinstance((payload.get('broken') or [{}])[0], dict):
+        dc = ((((payload.get('broken') or [{}])[0].get('minimal_case') or {}).get('desc') or {}).get('dc_ops'))
+    if dc:
+        exp, det = D.run_history(dc)
+        print('DeviceInfoCache history:', dc)
+        print('exceptions:', det['log'])
+        for x in D.check_history(dc)[0]:
+            print('  FAIL', {k: v for k, v in x.items() if k != 'dc_ops'})
+        import core
+        got, err = core.coq_eval(COQ_IMPORTS, D.coq_ops(dc))
+        print('model observation equals implementation observation:', got == exp)
+        return
     ops = f.get('ops') or (((payload.get('broken') or [{}])[0].get('minimal_case') or {}).get('desc') or {}).get('ops') \
         if isinstance((payload.get('broken') or [{}])[0], dict) else f.get('ops')
     if ops:
